@@ -32,13 +32,13 @@ theorem sum_filter_eq_readW' (sl : List (Slot Nat)) (p : Slot Nat → Bool) (lo 
       simpa using ihr
 
 theorem viewSum_eq_refW (n L now0 : Nat) (hn : 0 < n) (hL : 0 < L) (h : List (Nat × Nat)) (mono : Mono now0 h)
-    (now : Nat) (hnow : ∀ e ∈ h, e.1 ≤ now) (hnow0 : now0 ≤ now) (Iv : Nat) (hIv : Iv ≤ n * L) :
+    (now : Nat) (hnow : ∀ e ∈ h, e.1 ≤ now) (hnow0 : now0 ≤ now) (hpos : 0 < now) (Iv : Nat) (hIv : Iv ≤ n * L) :
     viewSum (runAdds (mk n L now0) h) Iv now = refW L h (cbs L now + L - Iv) (cbs L now) := by
   have hLn := runAdds_nL (mk n L now0 : Arr Nat) h
   have hL' : (runAdds (mk n L now0 : Arr Nat) h).L = L := by simpa [mk] using hLn.1
   have hn' : (runAdds (mk n L now0 : Arr Nat) h).n = n := by simpa [mk] using hLn.2
   unfold viewSum viewVals rangeOf
-  simp only [hL', hn']
+  simp only [hL', hn', Nat.ne_of_gt hpos, if_false]
   rw [sum_filter_eq_readW']
   · exact window_eq_ref n L now0 hn hL h mono now hnow hnow0 _ _ (by omega)
   · intro s _ hw
@@ -109,9 +109,10 @@ theorem Tracks.write0 {a n L hist latest} (tk : Tracks a n L hist latest) {now :
 theorem Tracks.read {a n L hist latest} (tk : Tracks a n L hist latest) {now : Nat} (h : latest ≤ now)
     (hn : 0 < n) (hL : 0 < L) (Iv : Nat) (hIv : Iv ≤ n * L) :
     viewSum a Iv now = refW L hist (cbs L now + L - Iv) (cbs L now) := by
-  obtain ⟨tr, evs, _, h1, h2, h3, h4, h5⟩ := tk
+  obtain ⟨tr, evs, h0, h1, h2, h3, h4, h5⟩ := tk
   rw [h2, ← h5]
-  exact viewSum_eq_refW n L tr hn hL evs h3 now (fun e he => le_trans (h4 e he) h) (le_trans h1 h) Iv hIv
+  exact viewSum_eq_refW n L tr hn hL evs h3 now (fun e he => le_trans (h4 e he) h) (le_trans h1 h)
+    (lt_of_lt_of_le h0 (le_trans h1 h)) Iv hIv
 
 /-! ## geometry chosen by `generateStatFor` -/
 
